@@ -223,6 +223,26 @@ def extract_awkward_behaviors(repo=None):
             return not (is_type_expr(ast.Name("left"), env) and is_type_expr(ast.Name("right"), env))
         raise AnalysisError(f"awkward.py module level: cannot fold condition `{s}`")
 
+    module_tuples = {st.targets[0].id: st.value for st in mf.tree.body
+                     if isinstance(st, ast.Assign) and len(st.targets) == 1 and isinstance(st.targets[0], ast.Name) and isinstance(st.value, (ast.Tuple, ast.List))}
+
+    def tuple_display(node, depth=0):
+        """a tuple display, or a module-level name bound once to one; `*name` members are expanded (the loops over record names are often written with constants)"""
+        if isinstance(node, ast.Name) and node.id in module_tuples and depth < 4:
+            node = module_tuples[node.id]
+        if not isinstance(node, (ast.Tuple, ast.List)):
+            return node
+        elts = []
+        for e in node.elts:
+            if isinstance(e, ast.Starred):
+                inner = tuple_display(e.value, depth + 1)
+                if not isinstance(inner, (ast.Tuple, ast.List)):
+                    return node
+                elts.extend(inner.elts)
+            else:
+                elts.append(e)
+        return ast.Tuple(elts=elts, ctx=ast.Load())
+
     def run(stmts, env):
         for st in stmts:
             if isinstance(st, ast.Assign) and len(st.targets) == 1 and isinstance(st.targets[0], ast.Subscript) \
@@ -243,8 +263,8 @@ def extract_awkward_behaviors(repo=None):
                     table[key] = (n, txt, st.lineno, val)
                 else:
                     table[key] = (None, unparse(val), st.lineno, val)
-            elif isinstance(st, ast.For) and isinstance(st.iter, ast.Tuple):
-                for item in st.iter.elts:
+            elif isinstance(st, ast.For) and isinstance(tuple_display(st.iter), ast.Tuple):
+                for item in tuple_display(st.iter).elts:
                     env2 = dict(env)
                     if isinstance(st.target, ast.Name):
                         env2[st.target.id] = item
